@@ -442,6 +442,10 @@ func formatExprForType(expr ast.Expression) string {
 			}
 			return "[" + strings.Join(parts, ", ") + "]"
 		}
+		// A string keeps its quotes and is escaped like any other string inside a type
+		if s, ok := e.Value.(string); ok && e.Type == ast.LiteralString && !e.IsBigInt {
+			return "\\\\\\'" + escapeStringForTypeParam(s) + "\\\\\\'"
+		}
 		return fmt.Sprintf("%v", e.Value)
 	case *ast.Identifier:
 		return e.Name()
@@ -449,6 +453,9 @@ func formatExprForType(expr ast.Expression) string {
 		return formatFunctionCallForType(e)
 	case *ast.DataType:
 		return FormatDataType(e)
+	case *ast.BinaryExpr:
+		// e.g. 'hello' = 1 inside a nested parametrised type
+		return formatBinaryExprForType(e)
 	default:
 		return formatExprAsString(expr)
 	}
